@@ -29,6 +29,7 @@ fn mhash(m: &MetaType) -> u64 {
 fn rows(thorough: bool) -> Vec<Row> {
     let mut e = u3::depth1();
     e.extend(u3::depth2());
+    e.extend(u3::same_name_locals());
     if thorough {
         e.extend(u3::depth2_more());
     }
@@ -133,7 +134,7 @@ pub fn run(thorough: bool) -> i32 {
     rep.set("equal_pairs", json!(equal_pairs));
     rep.set("distinct_nontrivial", json!(n * n - n));
     rep.set("exhaustive", json!(true));
-    rep.set("rule", json!("table = every unary built-in constructor (Box Rc Arc & &mut Vec VecDeque Option [_;2] (_,) PhantomData Compact BTreeSet Result<_,u8> (_,u8) Box<[_]>) applied to 13 leaves, applied twice to 6 leaves (13 thorough), unsized leaves behind every pointer, plus the static universe U1; all ordered pairs (non-trivial = off-diagonal); model identity = normal form computed from the type's source text (strip Box/Rc/Arc/&/&mut recursively at the top, Vec/VecDeque -> slice, String -> str, PhantomData<_> -> one identity, arguments untouched)"));
+    rep.set("rule", json!("table = every unary built-in constructor (Box Rc Arc & &mut Vec VecDeque Option [_;2] (_,) PhantomData Compact BTreeSet Result<_,u8> (_,u8) Box<[_]>) applied to 13 leaves, applied twice to 6 leaves (13 thorough), unsized leaves behind every pointer, three block-local types sharing one core::any::type_name, plus the static universe U1; all ordered pairs (non-trivial = off-diagonal); model identity = normal form computed from the type's source text (strip Box/Rc/Arc/&/&mut recursively at the top, Vec/VecDeque -> slice, String -> str, PhantomData<_> -> one identity, arguments untouched)"));
     for r in rows.iter().step_by(n / 6 + 1) {
         rep.sample(json!({"type": r.label, "model_identity": format!("{:?}", r.nf)}));
     }
